@@ -80,19 +80,23 @@ func (h *harnessState) close() {
 
 // treeCase is one receiving tree over one receiver ACL.
 type treeCase struct {
-	h        *harnessState
-	r        *corr.Run
-	w        *world
-	recvK    int
-	recvKeys *accountdata.AccountKeys
-	recv     list.AclList
-	rootId   string
-	store    objecttree.Storage
-	tree     objecttree.ObjectTree
-	builder  objecttree.ChangeBuilder
-	attached map[string]*parsed // what the oracle knows to be attached (authentic versions)
-	resync   bool               // the model lost track (unmodelled rebuild path): oracle only from here on
-	ops      []string           // model lines sent so far (replay)
+	h          *harnessState
+	r          *corr.Run
+	w          *world
+	recvK      int
+	recvKeys   *accountdata.AccountKeys
+	recv       list.AclList
+	rootId     string
+	store      objecttree.Storage
+	tree       objecttree.ObjectTree
+	builder    objecttree.ChangeBuilder
+	attached   map[string]*parsed // what the oracle knows to be attached (authentic versions)
+	resync     bool               // outside the model (rebuild path, snapshot / reduce, empty previous ids, key filter): oracle only from here on
+	keyFilter  bool               // tree built with BuildKeyFilterableObjectTree
+	lastStatus string
+	keyIds     []string // read key ids the receiver can decrypt
+	exotic     bool     // generate snapshot changes and changes without previous ids
+	ops        []string // model lines sent so far (replay)
 }
 
 // check records a model/implementation disagreement; after a few of them only counts, so that the
@@ -110,6 +114,9 @@ func (tc *treeCase) check(stream, model, impl string) {
 }
 
 func (tc *treeCase) violate(stream, desc string) {
+	if tc.lastStatus != "" {
+		desc += " {" + tc.lastStatus + "}"
+	}
 	tc.r.Violate("C02", "", stream, desc, append([]string{"# acl history: " + strings.Join(tc.w.cmds, " ; ")}, tc.ops...))
 }
 
@@ -179,17 +186,35 @@ func (tc *treeCase) buildRoot(a *acct, aclHead string, derived bool) *rawCh {
 	return &rawCh{id: raw.Id, body: raw.RawChange, label: "root"}
 }
 
+// buildOpts: the less usual shapes of a change
+type buildOpts struct {
+	isSnapshot bool
+	readKeyId  string // non-empty: encrypted change naming this read key
+}
+
 // buildChange uses the REAL builder, signed by the author's real key.
-func (tc *treeCase) buildChange(a *acct, aclHead string, prev []string, snap string) *rawCh {
-	_, raw, err := tc.builder.Build(objecttree.BuilderContent{
-		TreeHeadIds: append([]string(nil), prev...), AclHeadId: aclHead, SnapshotBaseId: snap,
+func (tc *treeCase) buildChange(a *acct, aclHead string, prev []string, snap string, opts ...buildOpts) *rawCh {
+	var o buildOpts
+	if len(opts) > 0 {
+		o = opts[0]
+	}
+	bc := objecttree.BuilderContent{
+		TreeHeadIds: append([]string(nil), prev...), AclHeadId: aclHead, SnapshotBaseId: snap, IsSnapshot: o.isSnapshot,
 		Unencrypted: true, PrivKey: a.keys.SignKey, Content: []byte(fmt.Sprint("d", tc.nextTs())), Timestamp: tc.nextTs(), DataType: "t",
-	})
+	}
+	if o.readKeyId != "" {
+		bc.Unencrypted, bc.ReadKeyId, bc.ReadKey = false, o.readKeyId, crypto.NewAES()
+	}
+	_, raw, err := tc.builder.Build(bc)
 	if err != nil {
 		tc.r.Fatal("Build: " + err.Error())
 	}
 	tc.noteSig(a, raw.RawChange)
-	return &rawCh{id: raw.Id, body: raw.RawChange, label: "valid"}
+	label := "valid"
+	if o.isSnapshot {
+		label = "valid.snapshot"
+	}
+	return &rawCh{id: raw.Id, body: raw.RawChange, label: label}
 }
 
 // ---- error enum ----
@@ -257,6 +282,24 @@ func (tc *treeCase) observe() obs {
 	return o
 }
 
+// diff names what differs between two observations (interned ids)
+func (o obs) diff(tc *treeCase, p obs) string {
+	var d []string
+	if strings.Join(o.heads, ",") != strings.Join(p.heads, ",") {
+		d = append(d, fmt.Sprintf("heads %s -> %s", orderedNums(tc, o.heads), orderedNums(tc, p.heads)))
+	}
+	if strings.Join(o.iter, ",") != strings.Join(p.iter, ",") {
+		d = append(d, fmt.Sprintf("iteration %s -> %s", orderedNums(tc, o.iter), orderedNums(tc, p.iter)))
+	}
+	if o.stDump != p.stDump {
+		d = append(d, fmt.Sprintf("storage %s -> %s", orderedNums(tc, o.stIds), orderedNums(tc, p.stIds)))
+	}
+	if strings.Join(o.stHead, ",") != strings.Join(p.stHead, ",") {
+		d = append(d, fmt.Sprintf("stored heads %s -> %s", orderedNums(tc, o.stHead), orderedNums(tc, p.stHead)))
+	}
+	return strings.Join(d, "; ")
+}
+
 func (o obs) exact() string {
 	return strings.Join(o.heads, ",") + "#" + strings.Join(o.iter, ",") + "#" + o.stDump + "#" + strings.Join(o.stHead, ",")
 }
@@ -275,6 +318,9 @@ func (tc *treeCase) authentic(p *parsed, env map[string]*parsed) (bool, string) 
 		return false, "id is not the content hash of the bytes"
 	}
 	if !p.decOK {
+		if len(p.payload) == 0 {
+			return false, "its bytes carry no payload: no author is named and nothing is signed"
+		}
 		return false, "bytes do not decode"
 	}
 	if p.isRoot && p.derived {
@@ -351,7 +397,18 @@ func (tc *treeCase) checkNew(stream string, before, after obs, delivered []*pars
 			continue
 		}
 		if ok, why := tc.authentic(c, env); !ok {
-			tc.violate(stream, fmt.Sprintf("change %d (%s) was attached/persisted although %s", tc.chNum(id), c.label, why))
+			where := ""
+			for _, x := range after.iter {
+				if x == id {
+					where += " [in IterateRoot]"
+				}
+			}
+			for _, x := range after.stIds {
+				if x == id {
+					where += " [in storage]"
+				}
+			}
+			tc.violate(stream, fmt.Sprintf("change %d (%s) was attached/persisted%s although %s", tc.chNum(id), c.label, where, why))
 			continue
 		}
 		tc.attached[id] = c
@@ -389,6 +446,13 @@ func sortedCopy(x []string) []string {
 
 type addSeqSetter interface{ SetAddSeq(*atomic.Uint64) }
 
+func (tc *treeCase) buildTree(st objecttree.Storage) (objecttree.ObjectTree, error) {
+	if tc.keyFilter {
+		return objecttree.BuildKeyFilterableObjectTree(st, tc.recv)
+	}
+	return objecttree.BuildObjectTree(st, tc.recv)
+}
+
 // open creates storage for the root and builds the real verifying tree (full validation).
 func (tc *treeCase) open(root *rawCh) bool {
 	ctx := context.Background()
@@ -408,7 +472,7 @@ func (tc *treeCase) open(root *rawCh) bool {
 			s.SetAddSeq(&atomic.Uint64{})
 		}
 		tc.store = st
-		tr, err := objecttree.BuildObjectTree(st, tc.recv)
+		tr, err := tc.buildTree(st)
 		if err != nil {
 			impl = "err:" + classify(err)
 		} else {
@@ -416,7 +480,9 @@ func (tc *treeCase) open(root *rawCh) bool {
 			impl = "ok"
 		}
 	}
-	tc.check("auth.tree", model, impl)
+	if !tc.resync {
+		tc.check("auth.tree", model, impl)
+	}
 	tc.r.Count("tree." + impl)
 	tc.r.Count("tree.root." + root.label)
 	okA, why := tc.authentic(p, nil)
@@ -446,6 +512,13 @@ func (tc *treeCase) add(batch []*rawCh, tag string) string {
 		ps = append(ps, p)
 		wires = append(wires, tc.wire(p))
 		raws = append(raws, rc.proto())
+	}
+	for _, p := range ps {
+		if p.decOK && !p.isRoot && p.isSnap && !tc.resync {
+			// snapshot changes (tree reduction) are outside the model
+			tc.resync = true
+			tc.r.Count("unmodelled.snapshot")
+		}
 	}
 	before := tc.observe()
 	line := "add " + strings.Join(wires, " ")
@@ -479,26 +552,38 @@ func (tc *treeCase) add(batch []*rawCh, tag string) string {
 	}
 	tc.r.Count("add.outcome." + strings.SplitN(status, ":", 2)[0])
 	tc.r.Count("add.ctx." + tag)
+	if tc.keyFilter {
+		tc.r.Count(fmt.Sprintf("add.keyfilter.%s.added=%d", strings.SplitN(status, ":", 2)[0], min(len(added), 2)))
+	}
+	if tc.exotic {
+		tc.r.Count(fmt.Sprintf("add.exotic.%s.added=%d", strings.SplitN(status, ":", 2)[0], min(len(added), 2)))
+	}
 	// oracle 1: only authentic changes become attached / persisted
+	tc.lastStatus = fmt.Sprintf("status=%s added=%s heads=%s", status, orderedNums(tc, added), sortedNums(tc, after.heads))
 	tc.checkNew("auth.add.oracle", before, after, ps)
 	// oracle 2: a rejected batch is a no-op on heads, iteration order, storage
 	if err != nil && before.exact() != after.exact() {
-		tc.violate("auth.add.noop", "a rejected batch ("+status+") changed heads / iteration / storage")
+		tc.violate("auth.add.noop", "a rejected batch ("+status+") changed "+before.diff(tc, after))
+	}
+	if err == nil && len(added) == 0 && before.exact() != after.exact() {
+		// not a rejected batch in the API sense (no error), so not judged by C02; reported to the
+		// integrator: a batch that adds nothing moved heads / iteration (reload drops a stored change)
+		tc.r.Count("observation.empty-ok-batch-changed-state")
 	}
 	// oracle 3 (consistency of the reply): on success the reported additions are what became attached and stored
 	if err == nil {
 		was := map[string]bool{}
-		for _, id := range before.iter {
+		for _, id := range before.stIds {
 			was[id] = true
 		}
-		var newIter []string
-		for _, id := range after.iter {
+		var newSt []string
+		for _, id := range after.stIds {
 			if !was[id] {
-				newIter = append(newIter, id)
+				newSt = append(newSt, id)
 			}
 		}
-		if strings.Join(sortedCopy(newIter), ",") != strings.Join(sortedCopy(added), ",") {
-			tc.violate("auth.add.result", "AddResult.Added differs from what became attached")
+		if strings.Join(sortedCopy(newSt), ",") != strings.Join(sortedCopy(added), ",") {
+			tc.violate("auth.add.result", "AddResult.Added differs from what was persisted")
 		}
 	}
 	// evidence: authentic changes that did not make it (never a C02 violation: C02 is only-if)
@@ -533,7 +618,7 @@ func (tc *treeCase) add(batch []*rawCh, tag string) string {
 // reopen rebuilds the tree from storage: full validation of everything stored.
 func (tc *treeCase) reopen(tag string) bool {
 	model := tc.ask("reopen")
-	tr, err := objecttree.BuildObjectTree(tc.store, tc.recv)
+	tr, err := tc.buildTree(tc.store)
 	impl := "ok"
 	if err != nil {
 		impl = "err"
@@ -676,6 +761,62 @@ func (tc *treeCase) validate(root *rawCh, batch []*rawCh, heads []string, tag st
 		}
 		if ok, why := tc.authentic(c, env); !ok {
 			tc.violate("auth.validate.oracle", fmt.Sprintf("whole-tree validation admitted change %d (%s) although %s", tc.chNum(id), c.label, why))
+		}
+	}
+}
+
+// content adds a change through the LOCAL path (AddContent): the real tree builds, signs and
+// validates it itself. The local path must also refuse an author who cannot write.
+func (tc *treeCase) content(a *acct, snapshot bool) {
+	ctx := context.Background()
+	before := tc.observe()
+	var res objecttree.AddResult
+	var err error
+	func() {
+		defer func() {
+			if rec := recover(); rec != nil {
+				err = fmt.Errorf("panic: %v", rec)
+			}
+		}()
+		tc.tree.Lock()
+		defer tc.tree.Unlock()
+		res, err = tc.tree.AddContent(ctx, objecttree.SignableChangeContent{
+			Data: []byte(fmt.Sprint("local", tc.nextTs())), Key: a.keys.SignKey, IsSnapshot: snapshot,
+			ShouldBeEncrypted: false, Timestamp: tc.nextTs(), DataType: "t"})
+	}()
+	after := tc.observe()
+	status := classify(err)
+	var ps []*parsed
+	var added []string
+	for _, sc := range res.Added {
+		added = append(added, sc.Id)
+		tc.noteSig(a, sc.RawChange)
+		p := tc.parseRaw(sc.Id, sc.RawChange, tc.rootId)
+		p.label = "local"
+		ps = append(ps, p)
+	}
+	idn := 0
+	if len(added) == 1 {
+		idn = tc.chNum(added[0])
+	}
+	if snapshot && !tc.resync {
+		tc.resync = true
+		tc.r.Count("unmodelled.snapshot")
+	}
+	model := tc.ask(fmt.Sprintf("content id=%d acc=%d", idn, a.idx))
+	impl := fmt.Sprintf("%s add=%s %s", status, orderedNums(tc, added), tc.post(after))
+	if !tc.resync {
+		tc.check("auth.content", model, impl)
+	}
+	tc.r.Count("content." + strings.SplitN(status, ":", 2)[0])
+	tc.checkNew("auth.content.oracle", before, after, ps)
+	if err != nil && before.exact() != after.exact() {
+		tc.violate("auth.content.noop", "a refused local change ("+status+") changed heads / iteration / storage")
+	}
+	if err == nil {
+		// the local author must be the key that was handed in, citing the receiver's current ACL head
+		if len(ps) != 1 || !ps[0].decOK || ps[0].acc != a.idx || ps[0].aclHead != tc.w.recs[tc.recvK-1].Id {
+			tc.violate("auth.content.oracle", "the locally added change does not name the signing account / the current ACL head")
 		}
 	}
 }
